@@ -320,6 +320,10 @@ func main() {
 		runC13(*seed, *count, *scheds, *dfs, *dfsCap)
 		return
 	}
+	if *prop == "C09" {
+		runC09(*seed, *count, *scheds, *dfs, *dfsCap)
+		return
+	}
 	if *prop == "C20" {
 		runC20(*seed, *count)
 		return
